@@ -93,7 +93,10 @@ pub fn twostep_case(rng: &mut Rng, rep: &mut Report, _case: u64) {
     rep.eval(); rep.count("twostep.first_merges");
     if report_outcome_failure(rep, &out1, p1, JarKind::NamedMem) { return; }
     let Ok(Ok(z1)) = out1 else { return };
+    let before = rep.violations.values().map(|v| v.count).sum::<u64>();
     judge_pair(rep, p1, &z1, JarKind::NamedMem);
+    // a first output that is already wrong is reported above; it is no well-formed input for a second merge
+    if rep.violations.values().map(|v| v.count).sum::<u64>() != before { rep.count("twostep.first_output_wrong(second merge skipped)"); return; }
     let Some(m1) = spec_from_zip(&z1) else { rep.count("twostep.first_output_not_readable(second merge skipped)"); return };
     let x = gen_partner(rng, rep, &m1);
     let Ok(xz) = jar::build_zip(&x.raw()) else { eprintln!("HARNESS-ERROR cannot build partner jar"); std::process::exit(3) };
